@@ -1,6 +1,7 @@
 package props
 
 import (
+	"time"
 	"encoding/json"
 	"fmt"
 	"strings"
@@ -27,6 +28,9 @@ type c10Case struct {
 	// Prompt: the event for boundary event 1 is delivered by the trace consumer at the very moment the host's
 	// task request is received (the earliest moment a caller knows that the activity waits for its answer)
 	Prompt bool `json:"prompt,omitempty"`
+	// DelaySite/DelayNth: the goroutine making the DelayNth hit of the site pauses 500 us (sequential histories)
+	DelaySite string `json:"delay_site,omitempty"`
+	DelayNth  int    `json:"delay_nth,omitempty"`
 }
 
 func c10Graph(c *c10Case) *gen.Graph {
@@ -117,6 +121,21 @@ func c10Cases(tier string, seed uint64) []fw.Case {
 			}
 		}
 	}
+	// the host is requested again (retry answer) and the event arrives during the second activation; the
+	// goroutine that relays the first answer is held back at its n-th step
+	for _, host := range []string{"task", "sub"} {
+		for _, intr := range [][]bool{{true}, {false}} {
+			for _, h := range [][]string{{"a0", "ar", "e1"}, {"a0", "ar", "ar", "e1"}, {"a0", "ar", "e1", "ah"}} {
+				for _, site := range []string{"act.relay", "task.process", "flow.action"} {
+					for nth := 1; nth <= 4; nth++ {
+						c := c10Case{Host: host, Intr: intr, Hist: h, Reps: 1, DelaySite: site, DelayNth: nth}
+						c.Name = fmt.Sprintf("delay/%s/%v/%s/%s#%d", host, intr, strings.Join(h, ","), site, nth)
+						cs = append(cs, fw.MkCase("sequential-delay", &c))
+					}
+				}
+			}
+		}
+	}
 	for _, host := range []string{"task", "sub"} {
 		for _, intr := range [][]bool{{true}, {false}, {false, true}} {
 			reps := 30
@@ -149,6 +168,10 @@ func c10Run(c *c10Case, env *fw.Env, v *fw.V) {
 		perturb.ConfigureSites(map[string]float64{"act.cancel": 0.5, "act.relay": 0.5, "catch.consume": 0.3, "task.process": 0.3}, 300)
 	} else {
 		perturb.Off()
+	}
+	if c.DelaySite != "" {
+		perturb.Trigger(c.DelaySite, c.DelayNth, 500*time.Microsecond, func() {})
+		defer perturb.Trigger("", 0, 0, nil)
 	}
 	opts := drive.Opts{ExtraSubs: 1}
 	if c.Prompt {
